@@ -610,8 +610,10 @@ def write_evidence(ctx, level='proof', extra_assumptions=None, exhaustive=False,
     ev = dict(property_id=ctx.prop, tier=ctx.tier, seed=ctx.seed, level=level, coverage=cov,
               assumptions=(extra_assumptions or []),
               wall_s=round(time.time() - ctx.t0, 2), violations=len(ctx.violations))
-    os.makedirs(ROOT + '/evidence', exist_ok=True)
-    json.dump(ev, open('%s/evidence/%s.json' % (ROOT, ctx.prop), 'w'), indent=1, default=str)
+    # evidence describes runs against /repo itself; a mutation experiment (VERIF_REPO) must not overwrite it
+    evdir = ROOT + ('/.build/evidence_experiment' if os.environ.get('VERIF_REPO') else '/evidence')
+    os.makedirs(evdir, exist_ok=True)
+    json.dump(ev, open('%s/%s.json' % (evdir, ctx.prop), 'w'), indent=1, default=str)
 
 
 def note_case(ctx, w):
